@@ -12,7 +12,7 @@ META = {
             '-> nondeterministic, undeclared state, a used state missing from the states line, undeclared symbol, no initial line, two initial states, repeated declaration, '
             'transition with <3 words, ill-formed label) must be rejected with an error; outcomes compared with the Lean parser; every '
             'returned object is checked against its class invariant; non-trivial = layout differing from the printer\'s, or a corruption; '
-            'distinct by text',
+            'distinct by text; also states named like a keyword of another automaton kind, a used state missing from the states line, symbols that only start like a word (a,b a-z)',
     'assumptions': ['ASCII text plus ε and □; state names \\w+ not equal to keywords of the format'],
     'trusted_base': ['Lean: Gamba/Model/Parse.lean'],
 }
